@@ -2,6 +2,7 @@ import RR.Model.Blocks
 import RR.Model.Hand
 import RR.Model.Source
 import RR.Model.Dsp
+import RR.Model.Conv
 import RR.Model.Util
 
 /-!
@@ -181,7 +182,10 @@ def registry (name : String) (p : List Nat) : Option Block :=
     | none =>
       match Dsp.dspRegistry name p with
       | some b => some b
-      | none => sourceRegistry name p
+      | none =>
+        match convRegistry name p with
+        | some b => some b
+        | none => sourceRegistry name p
 
 /-- `repeat <n or inf> ; a ; d ; c …`: the `Repeat` API -/
 def handleRepeat (args : String) : String :=
